@@ -225,3 +225,205 @@ pub fn run_case_t(case: &Case, rep: &mut Report, prop: &str, record: bool) -> (V
     let t = finish_transcript(&mut w);
     (vec![], t)
 }
+
+// ---------------------------------------------------------------------------------------------
+// Trees containing messages outside the chain model (staking, distribution, ibc, gov): judged by
+// the model-free invariants only — I1 (Err => byte-identical storage), I3 (execute_multi equals the
+// same messages executed one by one on a twin instance), panic monitor, query purity.
+// ---------------------------------------------------------------------------------------------
+
+fn opaque_world() -> (World, Vec<String>) {
+    use cosmwasm_std::{Decimal, Validator};
+    let mut w = World::new();
+    let block = w.app.block_info();
+    w.app.init_modules(|router, api, storage| {
+        router.staking.setup(storage, cw_multi_test::StakingInfo { bonded_denom: "TOKEN".into(), unbonding_time: 60, apr: Decimal::percent(10) }).unwrap();
+        for (i, c) in [5u64, 20].iter().enumerate() {
+            router.staking.add_validator(api, storage, &block, Validator::create(format!("validator{}", i), Decimal::percent(*c), Decimal::percent(100), Decimal::percent(1))).unwrap();
+        }
+    });
+    let mut scratch = Report::new();
+    let users = w.users.clone();
+    let mut ops = vec![];
+    for u in &users {
+        ops.push(Top::Mint { to: u.clone(), coins: vec![coin(10_000, "ua"), coin(10_000, "TOKEN")] });
+    }
+    ops.push(Top::StoreCode { kind: CodeKind::Puppet { code_tag: 1, checksum: None }, creator: None, id: None });
+    ops.push(Top::StoreCode { kind: CodeKind::Lifted, creator: None, id: None });
+    for (i, code) in [1u64, 1, 2].iter().enumerate() {
+        ops.push(Top::Exec {
+            sender: users[i % 3].clone(),
+            msg: Msg::Inst { code_id: *code, script: Box::new(Script { tag: 9100 + i as u32, ..Default::default() }), funds: vec![coin(500, "TOKEN"), coin(100, "ua")], label: format!("o{}", i), admin: Some(users[0].clone()), salt: None },
+            via: ExecVia::Execute,
+        });
+    }
+    for op in &ops {
+        let _ = w.step(op, &mut scratch);
+    }
+    let contracts = w.model.st.contracts.keys().cloned().collect();
+    (w, contracts)
+}
+
+fn exec_real(w: &mut World, op: &Top) -> Result<Result<Vec<cw_multi_test::AppResponse>, String>, String> {
+    use cosmwasm_std::Addr;
+    use cw_multi_test::Executor;
+    catch(|| match op {
+        Top::Exec { sender, msg, .. } => w.app.execute(Addr::unchecked(sender.clone()), to_cosmos::<PMsg>(msg)).map(|r| vec![r]).map_err(|e| format!("{:#}", e)),
+        Top::Multi { sender, msgs } => w.app.execute_multi(Addr::unchecked(sender.clone()), msgs.iter().map(to_cosmos::<PMsg>).collect()).map_err(|e| format!("{:#}", e)),
+        Top::Sudo { addr, script, helper } => {
+            if *helper {
+                w.app.wasm_sudo(Addr::unchecked(addr.clone()), script).map(|r| vec![r]).map_err(|e| format!("{:#}", e))
+            } else {
+                w.app
+                    .sudo(cw_multi_test::SudoMsg::Wasm(cw_multi_test::WasmSudo { contract_addr: Addr::unchecked(addr.clone()), message: cosmwasm_std::to_json_binary(script).unwrap() }))
+                    .map(|r| vec![r])
+                    .map_err(|e| format!("{:#}", e))
+            }
+        }
+        _ => Ok(vec![]),
+    })
+}
+
+/// One generated history of opaque trees.
+pub fn run_opaque_history(rng: &mut Rng, len: usize, rep: &mut Report) -> (Case, Vec<Disc>) {
+    let mut profile = Profile::base();
+    profile.opaque_pct = 35;
+    profile.fail_pct = 10;
+    profile.max_nodes = 14;
+    let mut tagbase = 700_000u32;
+    let mut left = len;
+    run_opaque(
+        &mut |a: &World| {
+            if left == 0 {
+                return None;
+            }
+            left -= 1;
+            tagbase += 1000;
+            let users = a.users.clone();
+            let mut g = Gen::new(rng, profile.clone(), users, tagbase);
+            let mut op = g.top(&a.model);
+            // time passes between transactions so that unbondings mature and rewards accrue
+            if matches!(op, Top::SetBlock { .. } | Top::StoreCode { .. } | Top::DuplicateCode { .. } | Top::QueryBattery | Top::Mint { .. }) {
+                op = Top::SetBlock { height: 0, time_nanos: g.rng.range(1, 100) * 1_000_000_000, chain_id: String::new(), next: false };
+            }
+            Some(op)
+        },
+        rep,
+    )
+}
+
+pub fn replay_opaque(case: &Case, rep: &mut Report) -> Vec<Disc> {
+    let mut it = case.ops.iter();
+    run_opaque(&mut |_a: &World| it.next().cloned(), rep).1
+}
+
+/// Runs opaque trees on two instances (A: as given; B: multi-message calls executed one by one).
+fn run_opaque(next_op: &mut dyn FnMut(&World) -> Option<Top>, rep: &mut Report) -> (Case, Vec<Disc>) {
+    let (mut a, _) = opaque_world();
+    let (mut b, _) = opaque_world();
+    let mut ops: Vec<Top> = vec![];
+    let mut discs: Vec<Disc> = vec![];
+    while let Some(op) = next_op(&a) {
+        ops.push(op.clone());
+        if let Top::SetBlock { time_nanos, .. } = &op {
+            let dt = *time_nanos;
+            for w in [&mut a, &mut b] {
+                if let Err(p) = catch(|| w.app.update_block(|bl| { bl.time = bl.time.plus_nanos(dt); bl.height += 1; })) {
+                    discs.push(Disc { props: vec!["C14", "C01"], sig: "block-update-panics".into(), detail: p });
+                    return (Case { ops }, discs);
+                }
+            }
+            rep.bump("e1/opaque/block_updates");
+            continue;
+        }
+        rep.evaluations += 1;
+        let before = crate::rawstate::dump(a.app.storage());
+        let _ = take_trace();
+        let ra = exec_real(&mut a, &op);
+        let trace = take_trace();
+        let ra = match ra {
+            Ok(r) => r,
+            Err(p) => {
+                discs.push(Disc { props: vec!["C01", "C14", "C17"], sig: "panic-in-transaction-with-module-messages".into(), detail: format!("{}: {}", short_op(&op), p) });
+                return (Case { ops }, discs);
+            }
+        };
+        rep.bump(&format!("e1/opaque/tx/{}", if ra.is_ok() { "ok" } else { "err" }));
+        for t in &trace {
+            for (x, y) in &t.probes {
+                rep.bump("e1/opaque/probes_issued_twice");
+                if x != y {
+                    discs.push(Disc { props: vec!["C10"], sig: "same-query-twice-differs".into(), detail: format!("{} then {}", x, y) });
+                }
+            }
+        }
+        let after = crate::rawstate::dump(a.app.storage());
+        if ra.is_err() {
+            rep.bump("e1/opaque/err_state_unchanged_checks");
+            if after != before {
+                discs.push(Disc { props: vec!["C01"], sig: "failed-transaction-with-module-messages-left-state-changes".into(), detail: format!("{}: {:?}", short_op(&op), crate::rawstate::diff(&before, &after)) });
+                return (Case { ops }, discs);
+            }
+        } else if after != before {
+            rep.fingerprints.insert(fp_str(&format!("{:?}", trace.iter().map(|t| (t.entry.clone() as u8, t.tag % 1000)).collect::<Vec<_>>())));
+        }
+        // twin B: the same messages one by one
+        let rb: Result<Vec<cw_multi_test::AppResponse>, usize> = match &op {
+            Top::Multi { sender, msgs } if msgs.len() > 1 => {
+                let mut out = vec![];
+                let mut failed = None;
+                for (i, m) in msgs.iter().enumerate() {
+                    match exec_real(&mut b, &Top::Exec { sender: sender.clone(), msg: m.clone(), via: ExecVia::Execute }) {
+                        Ok(Ok(mut r)) => out.append(&mut r),
+                        _ => {
+                            failed = Some(i);
+                            break;
+                        }
+                    }
+                }
+                match failed {
+                    None => Ok(out),
+                    Some(i) => Err(i),
+                }
+            }
+            _ => match exec_real(&mut b, &op) {
+                Ok(Ok(r)) => Ok(r),
+                _ => Err(0),
+            },
+        };
+        let _ = take_trace();
+        match (&ra, &rb) {
+            (Ok(x), Ok(y)) => {
+                rep.bump("e1/opaque/multi_equals_sequence_checks");
+                let same = x.len() == y.len() && x.iter().zip(y.iter()).all(|(p, q)| p.events == q.events && p.data == q.data);
+                let sa = crate::rawstate::dump(a.app.storage());
+                let sb = crate::rawstate::dump(b.app.storage());
+                if !same || sa != sb {
+                    discs.push(Disc { props: vec!["C01"], sig: "execute-multi-differs-from-the-same-messages-in-sequence".into(), detail: format!("{}: responses equal: {}, storage diff {:?}", short_op(&op), same, crate::rawstate::diff(&sa, &sb).iter().take(4).collect::<Vec<_>>()) });
+                    return (Case { ops }, discs);
+                }
+            }
+            (Err(_), Err(0)) => {}
+            (Err(_), Err(_)) => {
+                // a later message failed: A rolled everything back, the one-by-one twin kept the earlier ones — out of step, stop here
+                rep.bump("e1/opaque/histories_ended_by_partial_sequence");
+                return (Case { ops }, discs);
+            }
+            (Ok(_), Err(i)) => {
+                discs.push(Disc { props: vec!["C01"], sig: "execute-multi-succeeded-although-a-message-fails-alone".into(), detail: format!("{}: message #{} fails when executed in sequence", short_op(&op), i) });
+                return (Case { ops }, discs);
+            }
+            (Err(e), Ok(_)) => {
+                discs.push(Disc { props: vec!["C01"], sig: "execute-multi-failed-although-every-message-succeeds-in-sequence".into(), detail: format!("{}: {}", short_op(&op), first_line(e)) });
+                return (Case { ops }, discs);
+            }
+        }
+        if !discs.is_empty() {
+            return (Case { ops }, discs);
+        }
+    }
+    // purity at the end
+    let mut answers = vec![];
+    discs.extend(a.query_battery(rep, &mut answers));
+    (Case { ops }, discs)
+}
